@@ -144,6 +144,16 @@ def check_calendar(case):
     wrong = [(str(idx[i].date()), got[i], exp[i]) for i in range(min(len(got), len(exp))) if got[i] != exp[i]]
     if wrong:
         bad.append(f"{len(wrong)} days predicted by the wrong sub-model, e.g. {wrong[:3]}")
+    # the same through the PUBLIC path: the data class puts its own season / day-type columns (library defaults) into the frame; routing must still
+    # follow the model's own maps
+    import opendsm.eemeter as em
+    with contextlib.redirect_stdout(io.StringIO()):
+        data = em.DailyReportingData(df.copy(), is_electricity_data=True)
+        res2 = m.predict(data, ignore_disqualification=True)
+    got2 = res2["model_split"].reindex(idx).tolist()
+    wrong2 = [(str(idx[i].date()), got2[i], exp[i]) for i in range(len(exp)) if got2[i] != exp[i]]
+    if wrong2:
+        bad.append(f"through DailyReportingData / predict(): {len(wrong2)} days predicted by the wrong sub-model, e.g. {wrong2[:3]}")
     return bad
 
 
